@@ -2070,6 +2070,13 @@ class Graph:
             if pulse.dest in names:
                 pulse.dest = names[pulse.dest]
         graph._deme_map = {deme.name: deme for deme in graph.demes}
+        # The new names must be valid and must not collide.
+        for deme in graph.demes:
+            if not isinstance(deme.name, str):
+                raise TypeError(f"deme name {deme.name!r} is not a string")
+            valid_deme_name(deme, None, deme.name)
+        if len(graph._deme_map) != len(graph.demes):
+            raise ValueError("deme names must be unique after renaming")
         return graph
 
     @classmethod
